@@ -603,6 +603,7 @@ type EntryStats struct {
 	Completed    int
 	Infeasible   int
 	Pruned       int
+	Nontrivial   int
 	SymbolicPath int
 	Decisions    int
 	Forks        int
@@ -677,6 +678,9 @@ func (eng *Engine) explore(entry *ssa.Function, maxPaths int, deadline time.Time
 					es.Completed++
 					if res.Symbolic {
 						es.SymbolicPath++
+					}
+					if res.NSym > 0 {
+						es.Nontrivial++
 					}
 				case "infeasible":
 					es.Infeasible++
